@@ -143,7 +143,7 @@ CHECKS.update({
              '(K+1)eps of the frequencies). Fitted classifiers over all listed configurations are inspected directly and every row and label is '
              'recomputed by the Lean model from the model\'s own raw leaf outputs.',
         note=TB + 'Soft-routing weights on the simplex is an hypothesis here (theorem of C09), checked on the weights read from the implementation; '
-             'kernel underflow to 0 at far rows is observed, not proved; leaf regression outputs and torch arithmetic are modelled; AUC-undefined '
+             'kernel underflow to exactly 0 at far rows is a float effect (observed); at R the limit is proved (far_limit_prior); leaf regression outputs and torch arithmetic are modelled; AUC-undefined '
              'leaves are excluded (property proviso).',
         technique='Lean 4 convexity lemmas over Finset sums + C13 codec; per-row recomputation on Float with float32 allowance',
         ref='DESIGN.md §6 C12'),
